@@ -57,7 +57,7 @@ def make_model(kind, seed):
                      output='s')
     ops = {'li': li, 'o1': o1, 'cpl': cpl, 'cp1': cpl1, 'dyn': dyn}
     etp = {'ce': EdgeTplSpec('ce', ['cpl']), 'c1': EdgeTplSpec('c1', ['cp1']), 'de': EdgeTplSpec('de', ['dyn'])}
-    if kind == 'coupling2':
+    if kind in ('coupling2', 'coupling3'):
         # two coupling operators with the SAME equations and variable definitions, different constants (and names)
         for nm in ('cka', 'ckb'):
             if seed % 2:
@@ -69,7 +69,7 @@ def make_model(kind, seed):
                                  {'z': ('alg', F(0)), 'pre': ('input', F(0)), 'gn': ('const', fp())}, output='z')
             etp['e' + nm] = EdgeTplSpec('e' + nm, [nm])
     # coupling/delay/spread kinds mostly with >= 2 units (size-1 populations hit the recorded n=1 finding)
-    lo = 1 if (kind in ('matrix', 'scalar') or (seed % 5 == 4 and kind not in ('delay2', 'spread2', 'dyncoupling', 'coupling2', 'delay+spread', 'spread+delay'))) else 2
+    lo = 1 if (kind in ('matrix', 'scalar') or (seed % 5 == 4 and kind not in ('delay2', 'spread2', 'dyncoupling', 'coupling2', 'coupling3', 'delay+spread', 'spread+delay'))) else 2
     na = rnd.randint(lo, 3)
     nb = rnd.randint(lo, 3)
     if kind == 'xcoupling' and seed % 4 < 2:
@@ -107,6 +107,13 @@ def make_model(kind, seed):
     elif kind == 'coupling':
         conns.append(Conn('a/li/x', 'a/li/u', Wm(na, na), edge='ce', var_map={'pre': 'source', 'post': 'a/li/x'}))
         conns.append(Conn('a/li/x', 'b/o1/u', Wm(nb, na), edge='c1', var_map={'pre': 'source'}))
+    elif kind == 'coupling3':
+        # two populations project into ONE target variable through the same coupling operator with other constants
+        conns.append(Conn('a/li/x', 'b/o1/u', Wm(nb, na), edge='ecka', var_map={'pre': 'source'},
+                          edge_values={'cka/gn': fp()}))
+        conns.append(Conn('b/o1/x', 'b/o1/u', Wm(nb, nb), edge='ecka', var_map={'pre': 'source'},
+                          edge_values={'cka/gn': fp()}))
+        conns.append(Conn('b/o1/x', 'a/li/u', Wm(na, nb)))
     elif kind == 'coupling2':
         conns.append(Conn('a/li/x', 'b/o1/u', Wm(nb, na), edge='ecka', var_map={'pre': 'source'}))
         if seed % 4 < 2:
@@ -125,7 +132,12 @@ def make_model(kind, seed):
         conns.append(Conn('b/o1/v', 'a/li/u', Wm(na, nb)))
     elif kind == 'delay':
         # multiples of the step and off-grid values (2.625 and 2.6 steps round to 3, 2.375 to 2)
-        conns.append(Conn('a/li/x', 'b/o1/u', Wm(nb, na), delay=DT * rnd.choice([2, 3, F(21, 8), F(13, 5), F(19, 8)])))
+        dsteps = rnd.choice([2, 3, F(21, 8), F(13, 5), F(19, 8)])
+        if seed % 4 == 1:
+            dsteps = F(8, 5)        # less than two steps as a number, two steps after rounding
+        elif seed % 4 == 3:
+            dsteps = F(7, 4)
+        conns.append(Conn('a/li/x', 'b/o1/u', Wm(nb, na), delay=DT * dsteps))
         conns.append(Conn('b/o1/x', 'a/li/u', Wm(na, nb)))
     elif kind == 'delay2':
         # two delayed Connectivity objects read the SAME source variable with different delays
@@ -180,7 +192,7 @@ def job_fn(job):
         plugin = tvdelay.ChainPlugin()
     elif job['kind'] in ('delay+spread', 'spread+delay'):
         plugin = tvdelay.Composite(tvdelay.RingBufferPlugin(DT), tvdelay.ChainPlugin())
-    elif job['kind'] == 'dyncoupling' or (job['kind'] == 'coupling2' and job['seed'] % 2):
+    elif job['kind'] == 'dyncoupling' or (job['kind'] in ('coupling2', 'coupling3') and job['seed'] % 2):
         plugin = tvdelay.EdgeStatePlugin()
     res = tvspec.validate(spec, c, tally, vectorized=True, plugin=plugin, t_sym=2)
     r = dict(status='ok', res=res, tally=tally.as_dict(), src=c.src, keys=list(c.keys),
@@ -260,13 +272,13 @@ def run(tier='quick', seed=0, only=None, verbose=False):
         assumptions=['reals for floats', 'dynamic coupling edges: pair states with the same differential equation and the same initial value are the same function of time and share one symbol (uniqueness of ODE solutions)',
                      'zero matrix entries mean no edge'])
     jobs = []
-    kinds = ['matrix', 'scalar', 'coupling', 'xcoupling', 'dyncoupling', 'coupling2', 'delay+spread', 'spread+delay', 'delay', 'spread', 'delay2', 'spread2']
+    kinds = ['matrix', 'scalar', 'coupling', 'xcoupling', 'dyncoupling', 'coupling2', 'coupling3', 'delay+spread', 'spread+delay', 'delay', 'spread', 'delay2', 'spread2']
     n = 4 if tier == 'quick' else 30
     for kind in kinds:
         for i in range(n):
             jobs.append(dict(key=f"pop:{kind}:{seed}:{i}|population", kind=kind, seed=seed * 100 + i, build='population',
                              vectorize=True, spec=None))
-            if i < (2 if tier == 'quick' else 10) and kind not in ('coupling', 'xcoupling', 'dyncoupling', 'coupling2'):
+            if i < (2 if tier == 'quick' else 10) and kind not in ('coupling', 'xcoupling', 'dyncoupling', 'coupling2', 'coupling3'):
                 for vec in (True, False):
                     jobs.append(dict(key=f"pop:{kind}:{seed}:{i}|explicit|vec={vec}", kind=kind, seed=seed * 100 + i,
                                      build='explicit', vectorize=vec, spec=None))
@@ -275,6 +287,19 @@ def run(tier='quick', seed=0, only=None, verbose=False):
     for j in jobs:
         j['spec'] = explicit_spec(make_model(j['kind'], j['seed']))
     tvjobs.run_tv_jobs(rep, jobs, verbose=verbose, fn=job_fn)
+    # run level (harness of C09): the real Euler / Heun kernels drive the emitted function of a population model with two
+    # delayed Connectivity objects on one source variable; afterwards every ring buffer holds its source's recorded rows
+    from . import c09
+    rj = []
+    for i in range(2 if tier == 'quick' else 6):
+        for heun in (False, True):
+            pm = make_model('delay2', seed * 100 + i)
+            rj.append(dict(key=f"run-level:pop:delay2:{seed}:{i}|{'heun' if heun else 'euler'}|population", spec=explicit_spec(pm),
+                           vectorize=True, heun=heun, steps=4 if tier == 'quick' else 6, solver='heun' if heun else 'euler',
+                           pop=('delay2', seed * 100 + i)))
+    if only:
+        rj = [j for j in rj if only in j['key']]
+    tvjobs.run_tv_jobs(rep, rj, verbose=verbose, fn=c09.run_level_job)
     return rep.finish(rule='program = (connectivity kind, population sizes, random sparse signed matrices, build through '
                            'PopulationTemplate/Connectivity or as explicit network); obligations: per unit and state '
                            'variable emitted derivative == reference of the explicit network; population output columns '
